@@ -415,7 +415,8 @@ int main(int argc, char *argv[])
     int ch = 0;
     char str[17];
     int ptr = 0;
-    uint32_t i;
+    // 64 bit so the loop ends when the image reaches 0xffffffff.
+    uint64_t i;
 
     fprintf(asm_context.list, "data sections:");
 
@@ -429,7 +430,7 @@ int main(int argc, char *argv[])
           {
             output_hex_text(asm_context.list, str, ptr);
           }
-          fprintf(asm_context.list, "\n%04x:", i/asm_context.bytes_per_address);
+          fprintf(asm_context.list, "\n%04x:", (uint32_t)(i / asm_context.bytes_per_address));
           ptr = 0;
         }
 
